@@ -14,6 +14,7 @@ Fixpoint value_json (v : value) : json :=
   | VBool b => JBool b
   | VInt z => JNum (dec_Z z)
   | VFloat (FQ x) => JNum (float_str (FQ x))
+  | VFloat (FW n m z) => JNum (float_str (FW n m z))
   | VFloat _ => JNull                      (* no JSON number: see Known_C17_nonfinite *)
   | VStr s => JStr s
   | VDate s => JStr s
@@ -286,10 +287,18 @@ Definition cfg_plain (c : config) : bool :=
   && forallb (fun up => plain (fst up) && plain (snd up)) (c_namespaces c)
   && oplain (c_template c).
 
+(* the digits of a whole float: at least one, no leading zero *)
+Definition fw_ok (mant : str) : bool :=
+  match mant with
+  | c :: _ => forallb is_digit mant && negb (c =? 48)
+  | [] => false
+  end.
+
 (* class 1: a value without JSON representation *)
 Fixpoint value_finite (v : value) : bool :=
   match v with
   | VFloat (FQ _) => true
+  | VFloat (FW _ mant _) => fw_ok mant
   | VFloat _ => false
   | VList l => forallb value_finite l
   | _ => true
